@@ -190,4 +190,143 @@ theorem buildProps_lookup (prim : PT → Str → PR) (props : List (Str × Str))
             simp [hb] at h; subst h
             simp [List.lookup, hne, ih r hnd' hb k]
 
+/-! ### deepObject keys -/
+
+theorem isPrefixOf_append_self (a b : Str) : a.isPrefixOf (a ++ b) = true := by
+  induction a with
+  | nil => simp
+  | cons c cs ih => simp [ih]
+
+theorem bracketSegs_nil (f : Nat) : bracketSegs f [] = [] := by
+  cases f <;> rfl
+
+/-- characters before the first '[' are skipped, one unit of fuel each -/
+theorem bracketSegs_skip (a rest : Str) (g : Nat) (h : '[' ∉ a) :
+    bracketSegs (a.length + g) (a ++ rest) = bracketSegs g rest := by
+  induction a with
+  | nil => simp
+  | cons c cs ih =>
+    have hc : c ≠ '[' := by intro e; apply h; simp [e]
+    have hcs : '[' ∉ cs := by intro e; apply h; simp [e]
+    have : (c :: cs).length + g = (cs.length + g) + 1 := by simp; omega
+    rw [this]
+    simp [bracketSegs, hc, ih hcs]
+
+theorem takeTo_close (k rest : Str) (h : ']' ∉ k) : takeTo ']' (k ++ ']' :: rest) = some (k, rest) := by
+  induction k with
+  | nil => simp [takeTo]
+  | cons c cs ih =>
+    have hc : c ≠ ']' := by intro e; apply h; simp [e]
+    have hcs : ']' ∉ cs := by intro e; apply h; simp [e]
+    simp [takeTo, hc, ih hcs]
+
+/-- `name[k]` is read back as the single segment `k` -/
+theorem deepKey_single (name k : Str) (hn : '[' ∉ name) (hk : ']' ∉ k) :
+    deepKey name (name ++ '[' :: (k ++ [']'])) = some [k] := by
+  unfold deepKey
+  have hp : (name ++ ['[']).isPrefixOf (name ++ '[' :: (k ++ [']'])) = true := by
+    have := isPrefixOf_append_self (name ++ ['[']) (k ++ [']'])
+    simpa using this
+  have hlen : (name ++ '[' :: (k ++ [']'])).length = name.length + ((k.length + 1) + 1) := by simp
+  have hseg : bracketSegs (name ++ '[' :: (k ++ [']'])).length (name ++ '[' :: (k ++ [']'])) = [k] := by
+    rw [hlen, bracketSegs_skip name ('[' :: (k ++ [']'])) ((k.length + 1) + 1) hn]
+    have h2 := takeTo_close k [] hk
+    simp [bracketSegs, h2, bracketSegs_nil]
+  simp only [hp, hseg, if_true]
+
+def deepEnc (name : Str) (kvs : List (Str × Str)) : List (Str × List Str) :=
+  kvs.map (fun kv => (name ++ '[' :: (kv.1 ++ [']']), [kv.2]))
+
+def deepPairs (kvs : List (Str × Str)) : List (List Str × List Str) := kvs.map (fun kv => ([kv.1], [kv.2]))
+
+theorem deepProps_enc (name : Str) (hn : '[' ∉ name) :
+    ∀ (kvs : List (Str × Str)), (∀ kv ∈ kvs, ']' ∉ kv.1) → deepProps name (deepEnc name kvs) = deepPairs kvs
+  | [], _ => rfl
+  | (k, v) :: rest, h => by
+    have hk : ']' ∉ k := h (k, v) (by simp)
+    have ih := deepProps_enc name hn rest (fun x hx => h x (by simp [hx]))
+    simp only [deepEnc, deepPairs, List.map_cons] at ih ⊢
+    simp only [deepProps, deepKey_single name k hn hk, ih]
+
+theorem deepUnder_pairs (p : Str) (kvs : List (Str × Str)) : deepUnder p (deepPairs kvs) = [] := by
+  induction kvs with
+  | nil => rfl
+  | cons kv rest ih => simp only [deepPairs, List.map_cons] at ih ⊢; simp [deepUnder, ih]
+
+theorem deepClash_pairs (kvs : List (Str × Str)) : deepClash (deepPairs kvs) = false := by
+  unfold deepClash
+  have h1 : (deepPairs kvs).any (fun kv => kv.2.length ≠ 1) = false := by
+    simp [deepPairs]
+  rw [h1, Bool.false_or, List.any_eq_false]
+  intro kv hkv
+  simp only [deepPairs, List.mem_map] at hkv
+  obtain ⟨x, _, rfl⟩ := hkv
+  have := deepUnder_pairs x.1 kvs
+  simp [deepPairs] at this
+  simp [deepPairs, this]
+
+theorem lookup_none_of_not_hasKey {β : Type} (k : Str) : ∀ (l : List (Str × β)), hasKey k l = false → l.lookup k = none
+  | [], _ => rfl
+  | (k', v) :: rest, h => by
+    simp only [hasKey, List.any_cons, Bool.or_eq_false_iff, decide_eq_false_iff_not] at h
+    have hne : (k == k') = false := by
+      have : k ≠ k' := fun e => h.1 e.symm
+      simpa using this
+    have ih := lookup_none_of_not_hasKey k rest (by simpa [hasKey] using h.2)
+    simp [List.lookup, hne, ih]
+
+/-- with distinct keys the Go map read (last assignment wins) is the first match -/
+theorem lookupLast_eq_lookup (k : Str) : ∀ (kvs : List (Str × Str)), distinctKeys kvs = true → lookupLast k kvs = kvs.lookup k
+  | [], _ => rfl
+  | (k', v) :: rest, h => by
+    simp only [distinctKeys, Bool.and_eq_true, Bool.not_eq_true'] at h
+    have ih := lookupLast_eq_lookup k rest h.2
+    by_cases hk : k = k'
+    · subst hk
+      have hn := lookup_none_of_not_hasKey k rest h.1
+      simp [lookupLast, ih, hn, List.lookup]
+    · have hne : (k == k') = false := by simpa using hk
+      have hne' : ¬ k' = k := fun e => hk e.symm
+      simp only [lookupLast, ih, List.lookup, hne]
+      cases rest.lookup k <;> simp [hne']
+
+theorem deepScalar_pairs (k : Str) (kvs : List (Str × Str)) :
+    deepScalar k (deepPairs kvs) = (kvs.lookup k).map (fun v => [v]) := by
+  induction kvs with
+  | nil => rfl
+  | cons kv rest ih =>
+    obtain ⟨k', v⟩ := kv
+    simp only [deepPairs, List.map_cons] at ih ⊢
+    by_cases hk : k = k'
+    · subst hk; simp [deepScalar, List.lookup]
+    · have hne : (k == k') = false := by simpa using hk
+      have hne' : ¬ k' = k := fun e => hk e.symm
+      simp [deepScalar, List.lookup, hne, hne', ih]
+
+def liftP (res : List (Str × PV)) : List (Str × DV) := res.map (fun kv => (kv.1, DV.p kv.2))
+
+theorem dvPrims_liftP (res : List (Str × PV)) : dvPrims (liftP res) = res := by
+  induction res with
+  | nil => rfl
+  | cons kv rest ih => obtain ⟨k, v⟩ := kv; simp only [liftP, List.map_cons] at ih ⊢; simp [dvPrims, ih]
+
+/-- deepObject over single-segment pairs is the flat object builder -/
+theorem buildDeep_flat (prim : PT → Str → PR) (kvs : List (Str × Str)) (hd : distinctKeys kvs = true) :
+    ∀ (sprops : List (Str × PS)),
+      buildDeep prim (deepPairs kvs) (sprops.map (fun kv => (kv.1, DS.prim kv.2))) = (buildProps prim kvs sprops).map liftP
+  | [] => rfl
+  | (k, ps) :: rest => by
+    have ih := buildDeep_flat prim kvs hd rest
+    simp only [List.map_cons, buildDeep, buildProps, deepProp, deepUnder_pairs, deepScalar_pairs,
+      lookupLast_eq_lookup k kvs hd, List.isEmpty_nil, Bool.not_true]
+    cases hl : kvs.lookup k with
+    | none => simpa using ih
+    | some s =>
+      cases hp : prim ps.t s with
+      | err => simp [hp]
+      | nil => simpa [hp] using ih
+      | val v =>
+        simp only [hp, Option.map_some, ih]
+        cases buildProps prim kvs rest <;> simp [liftP]
+
 end KinModel.Style
